@@ -82,7 +82,7 @@ func postprocessItem(item *models.Item) []*models.Item {
 		logger.Debug("HTML got extracted as asset, skipping", "item_id", item.GetShortID())
 		item.SetStatus(models.ItemCompleted)
 		return outlinks
-	} else if config.Get().DisableAssetsCapture && !domainscrawl.Enabled() {
+	} else if config.Get().DisableAssetsCapture && !domainscrawl.Enabled() && item.GetURL().GetHops() >= config.Get().MaxHops {
 		logger.Debug("assets capture and domains crawl are disabled", "item_id", item.GetShortID())
 		item.SetStatus(models.ItemCompleted)
 		return outlinks
